@@ -27,6 +27,8 @@ def args_of(c, trackfile):
             i = a.index("--padding"); del a[i:i + 2]
         if x == "-I":
             i = a.index("-I"); del a[i:i + 2]
+        if x == "--InitialDistZoom":
+            i = a.index("--InitialDistZoom"); del a[i:i + 2]
     a += XTRA[c.get("x", 0)]
     if c.get("mod"):     # deterministic RF phase modulation (the modulation record is flushed in the output block)
         a += ["--RFPhaseModAmplitude", 0.01, "--RFPhaseModFrequency", 130000.0]
@@ -36,7 +38,9 @@ def args_of(c, trackfile):
 STARTFILE = {}
 # rarely used options that belong to the physics / numerics of a run: whatever they are set to, observing must not change the results
 XTRA = [[], ["--CutoffFreq", 0], ["--CutoffFreq", 5e10], ["--InterpolationPoints", 3], ["--InterpolateClamped", "true"], ["--derivation", 3], ["--RoundPadding", "false", "--padding", 2.3],
-        ["--FPType", 1], ["--alpha1", 1e-4], ["--WallConductivity", 1.4e6], ["-I", 1e-3, 0, 2e-3]]
+        ["--FPType", 1], ["--alpha1", 1e-4], ["--WallConductivity", 1.4e6], ["-I", 1e-3, 0, 2e-3],
+        # a dilute phase space (peak density a hundred times below the usual one): what is stored must not depend on the magnitude of the values either
+        ["--InitialDistZoom", 3, "--PhaseSpaceSize", 24]]
 
 
 def phys_key(c):
